@@ -9,7 +9,7 @@ Sentence 2 (same results under every flag subset) is NOT decided.
 """
 import os
 
-from facts import AnalysisBroken, unparse
+from facts import AnalysisBroken, access_path, init_rows, strip_casts, unparse
 from x86guard import Backend, IsaOracle, LADDER, asm_forms, flag_levels
 from rules_common import where
 
@@ -32,6 +32,7 @@ def run(ctx):
     oracle = IsaOracle(os.path.join(ctx.scratch, "isa"))
     total_sites = 0
     ndel = [0]
+    nlanes = [0]
     for target in ("sse", "mmx", "avx"):
         be = Backend(db, target)
         fl = flag_levels(target)
@@ -139,6 +140,25 @@ def run(ctx):
                               (chain, be.rows[r]["name"], k, form, LADDER[lvl], (" and guards %s" % sorted(guards)) if guards else "", LADDER[have],
                                (" (rule for %s)" % ",".join(ops)) if ops else ""), line=c.line)
         total_sites += nsite
+        # R-LANES: a rule that emits scalar code lane by lane must cover all lanes of the INSTRUCTION (insn_shift includes the
+        # x2/x4 prefix), not just those of the loop (loop_shift); load/store opcodes, which take no prefix through the rule, aside
+        orows_ = {r["name"]: r for r in init_rows(db.tu("orcopcodes-sys").global_("opcodes")) if isinstance(r, dict) and r.get("name")}
+        LS_ = db.macro_int("ORC_STATIC_OPCODE_LOAD") | db.macro_int("ORC_STATIC_OPCODE_STORE")
+        for fn_, lst in sorted(by_fn.items()):
+            if all(o in orows_ and (orows_[o]["flags"] & LS_) for o, _ in lst):
+                continue
+            f_ = db.func(fn_, be.rules_tu.base[:-2])
+            for lp_ in [x for x in f_.walk() if x.k == "ForStmt" and x.c[1] is not None]:
+                sh = [y for y in lp_.c[1].walk() if y.k == "BinaryOperator" and y.op == "<<" and strip_casts(y.c[0]) is not None and strip_casts(y.c[0]).v == 1]
+                for y in sh:
+                    fld = (access_path(strip_casts(y.c[1])) or "")
+                    if fld.endswith("->loop_shift") or fld.endswith("->insn_shift"):
+                        nlanes[0] += 1
+                        rep.check(fld.endswith("->insn_shift"), "R-LANES", where(f_), "%s:%s@%s" % (target, fn_, lp_.line),
+                                  "the lane loop runs over 1 << insn_shift lanes",
+                                  "%s, the %s rule for %s, emits its scalar code for 1 << loop_shift lanes: with an x2/x4 prefix the instruction has 2/4 times "
+                                  "as many lanes and the rest keep their input - the result then depends on which flags select this rule" %
+                                  (fn_, target, sorted({o for o, _ in lst})), line=lp_.line)
         # R-DELEGATE: a rule that hands its instruction to another rule function (fallback when a resource is missing) must hand it
         # to a rule of the SAME opcode; otherwise the result depends on which flags selected the first rule
         ops_of = {}
@@ -161,6 +181,8 @@ def run(ctx):
         for f, c in be.unresolved[:10]:
             rep.info("%s: opcode argument of %s in %s not constant-resolvable: %s" % (target, c.name, f.name, unparse(c.args()[1])[:60]))
     rep.floor("R-GUARD", 600)
+    if nlanes[0] < 3:
+        raise AnalysisBroken("only %d per-lane loops found in the x86 rules" % nlanes[0])
     if ndel[0] < 3:
         raise AnalysisBroken("only %d rule-to-rule delegations found" % ndel[0])
     # The verdicts above hold for "the flags under which a rule is reached".  That a rule is reached only when all the
